@@ -6,6 +6,7 @@
    gen/Layouts.v (regenerated from the Go sources on every run).
    Stdlib + lia only.  Every statement is followed by Print Assumptions. *)
 From SJ Require Import lib.Base model.Json model.Ast model.ExecLib model.Leaf
+     proofs.KleeneProofs proofs.CompareProofs
      model.Civil model.GoTime model.DateTime extract.Instance proofs.DateTimeProofs gen.Layouts.
 Open Scope Z_scope.
 
@@ -39,6 +40,14 @@ Example compare_tz_pairs :
      (KTimestamp, KTimestampTZ); (KTimestampTZ, KDate); (KTimestampTZ, KTimestamp)].
 Proof. reflexivity. Qed.
 Print Assumptions compare_tz_pairs.
+
+(* a successful cast returns a value of the requested type *)
+Lemma exec_cast_kind t u ctx d d' : exec_cast t u ctx d = CastOk d' -> dt_kind d' = target_kind t.
+Proof.
+  destruct d as [k s n o]; destruct t, k, u; cbn; intros H; try discriminate H;
+    injection H as <-; reflexivity.
+Qed.
+Print Assumptions exec_cast_kind.
 
 (* ================================================================== *)
 (* 2. The method leaves of the model over the concrete library          *)
@@ -97,6 +106,22 @@ Lemma leaf_string_datetime_roundtrip ctx re members u d :
 Proof. intros Hp. rewrite leaf_datetime_keeps_type, string_parse_roundtrip by exact Hp. reflexivity. Qed.
 Print Assumptions leaf_string_datetime_roundtrip.
 
+(* the comparison operators of the model on two datetime items: the four
+   answers of compare_datetime (CompareProofs.C12_dt_results at mk_lib) *)
+Lemma compare_items_datetimes ctx re members u op a b :
+  is_cmp op = true ->
+  compareItems (mk_lib ctx re members) u op (JDt a) (JDt b) =
+  match compare_datetime u ctx a b with
+  | CmpOk c => Ret (predFrom (truth op c), None)
+  | CmpIncomparable => Ret (PUnknown, None)
+  | CmpTZRequired => Ret (PUnknown, Some (EExec "tzRequiredCast"))
+  end.
+Proof.
+  intros H. rewrite C12_dt_results by exact H. cbn [xl_dt_compare mk_lib].
+  destruct (compare_datetime u ctx a b); reflexivity.
+Qed.
+Print Assumptions compare_items_datetimes.
+
 (* ================================================================== *)
 (* 3. What ParseTime returns is well formed                            *)
 (* ================================================================== *)
@@ -123,14 +148,14 @@ Proof.
   pose proof (adjust_precision_ok v p (parse_raw_ok _ _ _ E)) as [Hn _].
   destruct (parse_raw_ok _ _ _ E) as [Hn0 _].
   set (v' := adjust_precision v p) in *.
-  destruct k; cbn [build_parsed]; fold v'.
-  - rewrite new_date_nf. unfold wf_dt, wf_nsec. cbn. lia.
-  - rewrite new_time_nf by exact Hn. pose proof (g_sod_range v'). unfold nsec_ok in Hn.
-    unfold wf_dt, wf_nsec. cbn. lia.
-  - rewrite new_timetz_nf by exact Hn. pose proof (g_sod_range v'). unfold nsec_ok in Hn.
-    unfold wf_dt, wf_nsec. cbn. lia.
-  - rewrite new_timestamp_nf by exact Hn. unfold nsec_ok in Hn. unfold wf_dt, wf_nsec. cbn. lia.
-  - rewrite new_timestamptz_nf by exact Hn. unfold nsec_ok in Hn. unfold wf_dt, wf_nsec. cbn. lia.
+  destruct k; cbn [build_parsed]; fold v';
+    [ rewrite new_date_nf
+    | rewrite new_time_nf by exact Hn
+    | rewrite new_timetz_nf by exact Hn
+    | rewrite new_timestamp_nf by exact Hn
+    | rewrite new_timestamptz_nf by exact Hn ];
+    pose proof (g_sod_range v'); unfold nsec_ok in Hn;
+    unfold wf_dt, wf_nsec; cbn [dt_kind dt_sec dt_nsec dt_off]; rewrite ?day0_val; lia.
 Qed.
 Print Assumptions parse_time_wf.
 
